@@ -9,6 +9,7 @@ from ..common import log
 from . import c09_floats
 from . import c09_ext
 from . import c09_data
+from . import c09_ti
 from . import c09_pages
 
 SLOT = 0x400
@@ -747,7 +748,7 @@ def run(args):
         xprobes = {}
         # DATA on word-organised targets, data statements behind CPU switches: vlib/props/c09_data.py
         # histories of CODEPAGE / CHARSET / SAVE / RESTORE with data statements in between: vlib/props/c09_pages.py
-        for part_run in (c09_ext.run_part, c09_data.run_part, c09_pages.run_part):
+        for part_run in (c09_ext.run_part, c09_data.run_part, c09_ti.run_part, c09_pages.run_part):
             part = part_run(_sys.modules[__name__], args, bdir, wd, ok, dict(probes, **xprobes))
             xprobes.update(part.get("probes", {}))
             spec_fail += part["spec_fail"]
